@@ -10,6 +10,7 @@
 From Coq Require Import List NArith Bool Permutation.
 From FIM Require Import Model.Cbm14Spec Proofs.Cbm14Assoc Proofs.Cbm14Merge Proofs.Cbm14Unmerge Proofs.Cbm14Inv
      Proofs.Cbm14Hist Proofs.Cbm14Dec.
+From FIM Require Model.Cbm14Store Model.Cbm14Check Proofs.Cbm14Frame.
 Import ListNotations.
 Open Scope N_scope.
 
@@ -80,6 +81,15 @@ Theorem C14_order_independent : forall As As',
 Proof. exact merge_from_perm. Qed.
 Print Assumptions C14_order_independent.
 
+(* the hypothesis is needed: FULL statement without `pairwise_compatible` is FALSE of the model and of the code
+   (known finding F4; the repository's own four site/network advertisements describe their common nodes
+   differently, so their combined model depends on the merge order) *)
+Theorem C14_order_independent_refuted :
+  exists A B C C', wf_adm A /\ wf_adm B /\ one_speaker A B /\
+                   merge_all [A; B] = Some C /\ merge_all [B; A] = Some C' /\ ~ eqv C C'.
+Proof. exact order_dependent_refuted. Qed.
+Print Assumptions C14_order_independent_refuted.
+
 (* ---- unmerge is the inverse of merge ----
    FULL statement (the property as written):
      wf_cbm C -> wf_adm A -> not_contributor (adm_id A) C -> smerge C A = Some C' -> eqv (sunmerge C' (adm_id A)) C
@@ -137,6 +147,24 @@ Theorem C14_rollback : forall s id ops,
 Proof. exact rollback_restores. Qed.
 Print Assumptions C14_rollback.
 
+(* ---- STORE LEVEL (Model/Cbm14Store.v, the transcription of the code over the shared in-memory store):
+   merging does not alter the source models - nor any other graph of the store, e.g. the snapshots.
+   For every history of merge_adm / unmerge_adm / snapshot / rollback on the combined graph cbm and every graph g
+   that is none of the graphs the operations work on (cbm itself, the temporary / snapshot id an operation
+   creates, the snapshot a rollback consumes), the nodes of g with all their properties, and g's canonical view
+   (nodes + connections), are unchanged.  Good g st: internal ids unique and below start_id, no connection
+   leaves g (decidable: goodb, checked on the initial store of every correspondence case). ---- *)
+Theorem C14_sources_untouched : forall g cbm ops st st',
+  Cbm14Frame.Good g st -> Forall (Cbm14Frame.outside cbm g) ops -> Cbm14Frame.run cbm st ops = Some st' ->
+  Cbm14Store.view_of g st' = Cbm14Store.view_of g st /\ Cbm14Store.of_gid g st' = Cbm14Store.of_gid g st /\
+  Cbm14Frame.Good g st'.
+Proof. exact Cbm14Frame.history_frame. Qed.
+Print Assumptions C14_sources_untouched.
+
+Theorem C14_store_invariant_decidable : forall g st, Cbm14Store.goodb g st = true -> Cbm14Frame.Good g st.
+Proof. exact Cbm14Frame.goodb_sound. Qed.
+Print Assumptions C14_store_invariant_decidable.
+
 (* ---- non-vacuity ---- *)
 Example C14_ex_consistent_family : consistent [A1; A2; A3] /\ Forall wf_adm [A1; A2; A3].
 Proof. exact fam_A_consistent. Qed.
@@ -165,3 +193,10 @@ Example C14_ex_rollback :
   nodes (h_cur (hrun (hstep (hrun hinit [HMerge A1]) (HSnap 100)) [HMerge A2; HSnap 101; HUnmerge 1; HRollback 101; HMerge A3]))
     <> nodes (h_cur (hrun hinit [HMerge A1])).
 Proof. exact ex_rollback. Qed.
+Example C14_ex_sources_untouched :
+  Cbm14Store.goodb 1 Cbm14Frame.ex_store = true /\ Cbm14Store.goodb 2 Cbm14Frame.ex_store = true /\
+  Forall (Cbm14Frame.outside 0 1) Cbm14Frame.ex_sops /\ Forall (Cbm14Frame.outside 0 2) Cbm14Frame.ex_sops /\
+  exists st', Cbm14Frame.run 0 Cbm14Frame.ex_store Cbm14Frame.ex_sops = Some st' /\
+              map Cbm14Store.n_nid (Cbm14Store.of_gid 0 st') = [10; 11] /\
+              map Cbm14Store.n_si (Cbm14Store.of_gid 0 st') = [Cbm14Store.SIds [1]; Cbm14Store.SIds [1]].
+Proof. exact Cbm14Frame.ex_frame. Qed.
